@@ -58,7 +58,11 @@ fn effective_stall_window_formula() {
 }
 
 // C06: time-based window recovery on the real code (f64 -> i32 cast inside): for every link state, clock value and RTT velocity
+// the debug-only `format!("{:.1}s", ..)` on the growth path is replaced by an empty String (float formatting dominates CBMC otherwise)
+pub fn fmt_stub(_args: core::fmt::Arguments<'_>) -> String { String::new() }
+
 #[kani::proof]
+#[kani::stub(alloc::fmt::format, fmt_stub)]
 fn window_recovery_contract() {
     let mut c = any_conn();
     kani::assume(c.window >= 1000 && c.window <= 60000);
